@@ -50,15 +50,18 @@ inductive WExpr where
   | const (k : Nat)
   | var (i : Nat)
   | field (i : Nat)
+  /-- `args.…`: the `i`-th argument that is not an I/O stream -/
+  | arg (i : Nat)
   | bin (op : BOp) (w : Nat) (a b : WExpr)
   deriving Repr, Inhabited
 
-/-- `env i` is the value of local `i`. -/
-def WExpr.eval (fields : List Nat) (env : Nat → Nat) : WExpr → Nat
+/-- `env i` is the value of local `i`, `args` the values of the function's arguments. -/
+def WExpr.eval (fields args : List Nat) (env : Nat → Nat) : WExpr → Nat
   | .const k => k
   | .var i => env i
   | .field i => fields.getD i 0
-  | .bin op w a b => op.eval w (a.eval fields env) (b.eval fields env)
+  | .arg i => args.getD i 0
+  | .bin op w a b => op.eval w (a.eval fields args env) (b.eval fields args env)
 
 /-- The locals an occurrence mentions (`Ex.vars`) and their values, as an environment. -/
 def envOf (vars vals : List Nat) (i : Nat) : Nat :=
@@ -76,17 +79,9 @@ inductive OpDesc where
   | wr (e : WExpr)
   | yieldSR
   | yieldSW
+  /-- `this.<name>?(…)`: a nested coroutine call with these (non-I/O) argument expressions -/
+  | call (name : String) (args : List WExpr)
   deriving Repr, Inhabited
-
-def OpDesc.toCOp (vars : List Nat) : OpDesc → COp
-  | .pure e => .pure (fun fields vals => e.eval fields (envOf vars vals))
-  | .store i op w => .store i (fun old v => match op with | none => v | some o => o.eval w old v)
-  | .rd m => .rd m
-  | .skip e => .skip (fun fields vals => e.eval fields (envOf vars vals))
-  | .skip1 => .skip1
-  | .wr e => .wr (fun fields vals => e.eval fields (envOf vars vals))
-  | .yieldSR => .yieldSR
-  | .yieldSW => .yieldSW
 
 mutual
 /-- The expression occurrences of a statement (to know which locals a tag mentions). -/
@@ -110,16 +105,13 @@ structure SProg where
   body : List Stmt
   ops : List (Nat × OpDesc)            -- tag ↦ description
   combs : List (Nat × BOp × Nat)       -- tag of the right-hand side ↦ operator and width of `op=`
-  statuses : List String               -- value of a returned status ↦ its name
+  statuses : List String               -- value of a returned status ↦ its name (package-wide)
+  /-- `resumables nvars body`, computed once when the coroutine is loaded -/
+  rs : List Nat
 
-def SProg.interp (p : SProg) : Nat → COp :=
-  let exs := blockExs p.body
-  fun t =>
-    match p.ops.find? (fun q => q.1 == t) with
-    | some q =>
-      let vars := match exs.find? (fun e => e.tag == t) with | some e => e.vars | none => []
-      q.2.toCOp vars
-    | none => .pure (fun _ _ => 0)
+/-- The saved set from a precomputed list of resumable variables (`savedSet` of Props/C05.lean is
+`savedSetOf (resumables n body) n`). -/
+def savedSetOf (rs : List Nat) (n : Nat) : Nat → Bool := fun v => decide (v ∈ rs) || decide (n ≤ v)
 
 def SProg.comb (p : SProg) : Nat → Nat → Nat → Nat :=
   fun t old v =>
@@ -127,9 +119,32 @@ def SProg.comb (p : SProg) : Nat → Nat → Nat → Nat :=
     | some q => q.2.1.eval q.2.2 old v
     | none => v
 
-/-- The saved set from a precomputed list of resumable variables (`savedSet` of Props/C05.lean is
-`savedSetOf (resumables n body) n`). -/
-def savedSetOf (rs : List Nat) (n : Nat) : Nat → Bool := fun v => decide (v ∈ rs) || decide (n ≤ v)
+/-- The interpretation of a described coroutine called with `args`, given the coroutines it may
+call (`tbl`); `depth` bounds the nesting of calls (Wuffs has no recursion) and `fuel` is what a
+callee's body is run with. -/
+def SProg.interpD (tbl : List (String × SProg)) (fuel : Nat) : Nat → SProg → List Nat → Nat → COp
+  | 0, _, _, _ => .pure (fun _ _ => 0)
+  | depth + 1, p, args, t =>
+    match p.ops.find? (fun q => q.1 == t) with
+    | none => .pure (fun _ _ => 0)
+    | some q =>
+      let vars := match (blockExs p.body).find? (fun e => e.tag == t) with | some e => e.vars | none => []
+      match q.2 with
+      | .pure e => .pure (fun fields vals => e.eval fields args (envOf vars vals))
+      | .store i op w => .store i (fun old v => match op with | none => v | some o => o.eval w old v)
+      | .rd m => .rd m
+      | .skip e => .skip (fun fields vals => e.eval fields args (envOf vars vals))
+      | .skip1 => .skip1
+      | .wr e => .wr (fun fields vals => e.eval fields args (envOf vars vals))
+      | .yieldSR => .yieldSR
+      | .yieldSW => .yieldSW
+      | .call name aes =>
+        match tbl.find? (fun c => c.1 == name) with
+        | none => .pure (fun _ _ => 0)
+        | some c =>
+          .ext ((callExt (savedSetOf c.2.rs c.2.nvars) c.2.body
+              (fun cargs => SProg.interpD tbl fuel depth c.2 cargs) c.2.comb fuel).mapArgs
+            (fun fields vals => aes.map (fun ae => ae.eval fields args (envOf vars vals))))
 
 /-- What the C driver (harness/cmd/c05/cprobe.go) prints, from the model's run: final status,
 output bytes, consumed count, the two fields, number of suspensions. -/
@@ -141,26 +156,26 @@ structure SplitOut where
   g1 : Nat
   susp : Nat
 
-def SProg.runOnce (p : SProg) (rs : List Nat) (fuel : Nat) (srcSizes dstSizes : List Nat)
+def SProg.runOnce (p : SProg) (tbl : List (String × SProg)) (fuel : Nat) (srcSizes dstSizes : List Nat)
     (bs : List UInt8) : Res CW :=
-  run (savedSetOf rs p.nvars) (chunkCfg p.interp p.comb) fuel (Task.block p.body)
+  run (savedSetOf p.rs p.nvars) (chunkCfg (SProg.interpD tbl fuel 8 p []) p.comb) fuel (Task.block p.body)
     ⟨fun _ => 0, initCW srcSizes dstSizes bs, []⟩
 
 /-- Run with the first of the given fuels that is enough: the run completed, or it starved (the
 world is then frozen: more fuel changes nothing that is printed). -/
-def SProg.runFuels (p : SProg) (rs : List Nat) (srcSizes dstSizes : List Nat) (bs : List UInt8) :
+def SProg.runFuels (p : SProg) (tbl : List (String × SProg)) (srcSizes dstSizes : List Nat) (bs : List UInt8) :
     List Nat → Nat → Res CW
-  | [], last => p.runOnce rs last srcSizes dstSizes bs
+  | [], last => p.runOnce tbl last srcSizes dstSizes bs
   | f :: more, last =>
-    let r := p.runOnce rs f srcSizes dstSizes bs
-    if r.out != Out.stop || r.st.w.mem.dead then r else p.runFuels rs srcSizes dstSizes bs more last
+    let r := p.runOnce tbl f srcSizes dstSizes bs
+    if r.out != Out.stop || r.st.w.mem.dead then r else p.runFuels tbl srcSizes dstSizes bs more last
 
-def SProg.runChunked (p : SProg) (rs : List Nat) (srcSizes dstSizes : List Nat)
+def SProg.runChunked (p : SProg) (tbl : List (String × SProg)) (srcSizes dstSizes : List Nat)
     (bs : List UInt8) : SplitOut :=
-  let r := p.runFuels rs srcSizes dstSizes bs [150, 600, 2400] 9600
+  let r := p.runFuels tbl srcSizes dstSizes bs [150, 600, 2400] 9600
   let w := r.st.w
   let status :=
-    if w.mem.dead then "$short_read"
+    if w.mem.dead then (if w.mem.code == 0 then "$short_read" else p.statuses.getD w.mem.code "status?")
     else match r.out with
       | Out.ret => p.statuses.getD w.mem.last "status?"
       | Out.norm => "ok"
